@@ -215,7 +215,7 @@ class AnsatzWorld(World):
             if r < 0.6:
                 return {"k": "build", "init": "kw", "kw_idx": rng.randrange(8)}
             return {"k": "build", "init": "vec", "zero_free": rng.random() < cfg["zero_free_p"], "seed": rng.randrange(10 ** 9),
-                    "mode": rng.choice(["fresh", "fresh", "fresh", "ints"])}
+                    "mode": rng.choice(["fresh", "fresh", "fresh", "ints", "pair_equal"])}
         n = len(self.theta)
         if cfg["faults"] and self.ctx.faults.random() < cfg["fault_rate"]:
             f = self.ctx.faults
@@ -225,7 +225,7 @@ class AnsatzWorld(World):
         if cfg["ansatz"] == "ADAPT" and r < 0.3:
             return {"k": "adapt_add", "idx": rng.randrange(10 ** 6)}
         if r < 0.62:
-            mode = rng.choice(["fresh", "fresh", "fresh", "fresh", "sign_flip", "repeat", "same_again", "zeros", "ints"])
+            mode = rng.choice(["fresh", "fresh", "fresh", "fresh", "sign_flip", "repeat", "pair_equal", "pair_equal", "same_again", "zeros", "ints"])
             return {"k": "update", "mode": mode, "zero_free": rng.random() < cfg["zero_free_p"], "seed": rng.randrange(10 ** 9)}
         if r < 0.66:
             return {"k": "set_update", "zero_free": rng.random() < cfg["zero_free_p"], "seed": rng.randrange(10 ** 9), "mode": rng.choice(["fresh", "zeros", "fresh"])}
@@ -233,7 +233,7 @@ class AnsatzWorld(World):
             return {"k": "edit_update", "idx": rng.randrange(64), "delta": rng.choice([0.8, -0.4, 2 * PI])}
         if r < 0.74:
             return {"k": "build", "init": "vec", "zero_free": rng.random() < cfg["zero_free_p"], "seed": rng.randrange(10 ** 9),
-                    "mode": rng.choice(["fresh", "fresh", "fresh", "ints"])}
+                    "mode": rng.choice(["fresh", "fresh", "fresh", "ints", "pair_equal"])}
         if r < 0.82:
             return {"k": "set_build", "kw_idx": rng.randrange(8)}
         if r < 0.92:
@@ -256,6 +256,13 @@ class AnsatzWorld(World):
         th = self._gen_theta(rng, n, bool(op.get("zero_free")))
         if mode == "repeat" and n > 1:
             th = [th[0]] * n
+        if mode == "pair_equal" and n > 1:
+            # two entries share one value (terms of the generator can then cancel exactly), possibly tiny
+            i, j = rng.sample(range(n), 2)
+            v = rng.choice([th[i] or 0.3, 0.0002, -0.0001, 0.5])
+            th[i] = th[j] = v
+            if rng.random() < 0.3:
+                th = [x * 1e-3 for x in th]
         return th
 
     # -- execution ----------------------------------------------------------------------------------------------------
